@@ -50,6 +50,24 @@ type SVGImage struct {
 
 	// needed to draw text
 	cursorPosition, cursorDPosition point
+
+	// clip paths, masks and markers being drawn, to ignore cyclic references
+	inProgress map[string]bool
+}
+
+// guard runs [draw], unless the definition [kind]+[id] is already being drawn,
+// that is unless the reference is cyclic
+func (svg *SVGImage) guard(kind, id string, draw func()) {
+	key := kind + id
+	if svg.inProgress[key] {
+		return
+	}
+	if svg.inProgress == nil {
+		svg.inProgress = make(map[string]bool)
+	}
+	svg.inProgress[key] = true
+	defer delete(svg.inProgress, key)
+	draw()
 }
 
 // DisplayedSize returns the value of the "width" and "height" attributes
@@ -120,7 +138,7 @@ func (svg *SVGImage) drawNode(dst backend.Canvas, node *svgNode, dims drawingDim
 
 		// clip
 		if cp, has := svg.definitions.clipPaths[node.clipPathID]; has {
-			svg.applyClipPath(dst, cp, node, dims)
+			svg.guard("clip", node.clipPathID, func() { svg.applyClipPath(dst, cp, node, dims) })
 		}
 
 		// Handle text anchor
@@ -192,7 +210,7 @@ func (svg *SVGImage) drawNode(dst backend.Canvas, node *svgNode, dims drawingDim
 
 		// apply mask
 		if ma, has := svg.definitions.masks[node.maskID]; has {
-			svg.applyMask(dst, ma, node, dims)
+			svg.guard("mask", node.maskID, func() { svg.applyMask(dst, ma, node, dims) })
 		}
 
 		// do the actual painting :
@@ -203,7 +221,8 @@ func (svg *SVGImage) drawNode(dst backend.Canvas, node *svgNode, dims drawingDim
 
 		// draw markers
 		if len(vertices) != 0 {
-			svg.drawMarkers(dst, vertices, node, dims, paint)
+			svg.guard("markers", node.markerID+" "+node.markerStartID+" "+node.markerMidID+" "+node.markerEndID,
+				func() { svg.drawMarkers(dst, vertices, node, dims, paint) })
 		}
 
 		// apply opacity group and restore original target
